@@ -65,7 +65,9 @@ pub fn generate(rng: &mut Rng, seed: u64, run: u64, max_len: usize) -> Trace {
     let faults = if fault_free {
         vec![]
     } else {
-        let (starts, map) = run_layout(&wl.bytes);
+        // (generation never dies with the code under test: a panic of the stripper on this input
+        // is for the executor to report)
+        let (starts, map) = catch(|| run_layout(&wl.bytes)).unwrap_or_else(|_| (vec![], (0..wl.bytes.len()).collect()));
         gen_faults(rng, map.len(), &starts, true)
     };
     let mut params = Vec::new();
